@@ -107,11 +107,11 @@ def _task(contract_idx, prop, tier, repo, budget_scale, conn):
         conn.close()
 
 
-def run_pool(prop, contracts, tier, repo, only=None):
+def run_pool(prop, contracts, tier, repo, only=None, select=None):
     ctx = mp.get_context('fork')
     todo = [i for i, c in enumerate(contracts)
-            if (tier == 'thorough' or c.tier == 'quick') and (only is None or only in c.ident())
-            and not c.params.get('_bounded_only')]
+            if (c.tier == 'quick' or (tier == 'thorough' and c.tier == 'thorough')) and (only is None or only in c.ident())
+            and not c.params.get('_bounded_only') and (select is None or i in select)]
     results = {}
     running = {}
     hard_limit = 900 if tier == 'quick' else 7200
@@ -263,6 +263,29 @@ def main(argv=None):
         print("CHECKER-ERROR no contracts registered for %s" % prop)
         return 3
     results = run_pool(prop, contracts, a.tier, a.repo, a.only)
+    # callee contracts: the summaries these contracts relied on are discharged by contracts that
+    # belong to other properties; re-run those here, so that this property's check notices a
+    # change inside a callee (modular soundness per property, not only for the whole set)
+    callee_contracts = []
+    if not a.only:
+        from contracts import _summaries
+        used = set()
+        for r in results:
+            used |= set(r.get('summarised', []) or [])
+        extra = _summaries.verifying_contracts(used, prop, dsl.REGISTRY)
+        owners = {}
+        for c in extra:
+            owners.setdefault(c.prop, []).append(c)
+        contracts = list(contracts)
+        for owner, cts in sorted(owners.items()):
+            owner_all = dsl.load_contracts(owner)
+            sel = set(owner_all.index(c) for c in cts)
+            for r in run_pool(owner, owner_all, 'quick', a.repo, None, select=sel):
+                c = owner_all[r['idx']]
+                r['idx'] = len(contracts)
+                contracts.append(c)
+                results.append(r)
+                callee_contracts.append(c.ident())
     known = load_known()
     n_ob = n_dis = 0
     violations = []
@@ -374,6 +397,20 @@ def main(argv=None):
             bounded = run_bounded(prop, a.repo, seed, a.tier)
         except Exception as e:
             bounded = {'error': str(e)}
+        if bounded and not bounded.get('error'):
+            # a stand-in that never evaluates, or that crashes in its own code, checks nothing
+            bo_all = set(c.ident() for c in contracts if c.params.get('_bounded_only'))
+            for stc in bounded.get('contracts', []):
+                if stc['contract'] not in bo_all:
+                    continue
+                if stc.get('harness_error'):
+                    errors.append({'contract': stc['contract'], 'error': 'bounded stand-in raised in its own code: %s' % stc['harness_error']})
+                elif stc.get('not_replayable'):
+                    errors.append({'contract': stc['contract'], 'error': 'bounded stand-in cannot be evaluated: %s' % stc['not_replayable']})
+                elif stc['pass'] + stc['fail'] + stc['exception'] == 0:
+                    errors.append({'contract': stc['contract'], 'error': 'bounded stand-in evaluated no sample (all %d vacuous)' % stc['vacuous']})
+        elif bounded and bounded.get('error'):
+            errors.append({'contract': 'bounded stand-ins', 'error': 'bounded run failed: %s' % bounded['error']})
         if bounded and bounded.get('failures'):
             # only contracts written for floats (`_bounded_only`) decide; failures of clauses that
             # are proved over the reals are rounding effects and are reported, not violations
@@ -425,6 +462,7 @@ def main(argv=None):
             'functions_under_contract': funcs,
             'functions_executed_in_place': sorted(all_inlined - set(funcs)),
             'callee_contracts_used_at_call_sites': sorted(all_summ),
+            'callee_contracts_rerun_under_this_property': sorted(callee_contracts),
             'ghost_lemmas_used': sorted(lemmas_used),
             'backends': {k: {'count': v['count'], 'seconds': round(v['seconds'], 3)} for k, v in backends.items()},
             'per_contract': per_contract,
